@@ -258,3 +258,7 @@ struct op_entry ops_template[] = {
 
 /* table sets by name, for other op files */
 BUFR_Tables *bvp_find_set(const char *name) { return find_set(name); }
+/* C16: the table sets of the process, for the reachability walk of harness/ops_own.c */
+int bvp_nsets(void) { return nsets; }
+BUFR_Tables *bvp_set_at(int i) { return sets[i].t; }
+const char *bvp_set_name(int i) { return sets[i].name; }
